@@ -1,16 +1,15 @@
 CONSTANTS
-  Mode = "law"
   Ns = {0, 1, 2, 3, 4, 5, 6, 7, 8, 9, 10, 11, 12, 13, 14, 15, 16, 17, 18, 19, 20, 21, 22, 23, 24, 25, 31, 32, 33, 63, 64, 65, 127, 128, 129, 255, 256, 257, 1023, 1024, 1025, 65535, 65536, 65537, 16777215, 16777216, 16777217, 1073741823, 1073741824, 1073741825, 2147483608, 2147483615, 2147483616}
   BigQs = {268435455, 268435456, 536870911, 536870912}
   IncMax = 1025
-  RollNs = {0}
+  RollNs = {0, 1, 7, 8, 9, 16, 17}
   Callers = {"a"}
   IncsPer = 1
   Reads = 1
   Start = {0}
   Alg = "total"
   Locked = FALSE
-INIT InitLaw
+INIT InitCases
 NEXT Stutter
 INVARIANTS LawHolds Emit
 CHECK_DEADLOCK FALSE
